@@ -52,7 +52,7 @@ def run_lines(exe, lines, sanitized=False, timeout=1800):
     answers = []
     reports = {}
     env = dict(os.environ)
-    env["ASAN_OPTIONS"] = "detect_leaks=0:allocator_may_return_null=1"
+    env["ASAN_OPTIONS"] = "detect_leaks=0:allocator_may_return_null=1:max_malloc_fill_size=4194304:malloc_fill_byte=190"  # fresh heap memory is 0xBE: a read of uninitialised pointers crashes instead of seeing zeroes
     env["UBSAN_OPTIONS"] = "print_stacktrace=0"
     start = 0
     while start < len(lines):
